@@ -691,6 +691,13 @@ func (env *SpecEnv) call(n *ast.CallExpr) Val {
 		return vBool(sOr(sNot(sEq(slcArr(a.T), slcArr(b.T))),
 			sApp("<=", sAdd(slcOff(a.T), slcCap(a.T)), slcOff(b.T)),
 			sApp("<=", sAdd(slcOff(b.T), slcCap(b.T)), slcOff(a.T))))
+	case "oldMemKept":
+		// every array that existed at function entry (or at the call, in a callee environment) has its old content
+		need(0)
+		r := sym(e.fresh("q"))
+		mNow, mOld := env.st.get("Mem"), env.old.get("Mem")
+		return vBool(fmt.Sprintf("(forall ((%s Int)) (! (=> (and (< 0 %s) (< %s %s)) (= (select %s %s) (select %s %s))) :pattern ((select %s %s))))",
+			r, r, r, env.old.get("alloc"), mNow, r, mOld, r, mNow, r))
 	case "fresh":
 		need(1)
 		a := arg(0)
@@ -1031,6 +1038,14 @@ func (in *Inst) resolveLocal(name string, at *ssa.BasicBlock, atIdx int, st *Sta
 					}
 				}
 				switch x := ins.(type) {
+				case *ssa.Alloc:
+					// an address-taken local lives in a cell: its current content is the variable's value (the
+					// DebugRefs of its assignments name values that may be stale at this point)
+					if x.Comment == name {
+						if _, ok := in.vals[x]; ok {
+							consider(cand{d + 1000, i, x, true, nil})
+						}
+					}
 				case *ssa.Phi:
 					if x.Comment == name {
 						if _, ok := in.vals[x]; ok {
